@@ -462,11 +462,11 @@ func c18(r *hx.Run) {
 	cw.Pts = hx.InstallPoints(r.Seed)
 	ps := &plans{}
 	cw.Farm.SetScript(ps.script)
-	c18Basics(r, cw, ps, rnd, r.Pick(100, 3000))
-	c18Directed(r, cw, ps, rnd, r.Pick(40, 1000))
-	c18SlowStore(r, cw, ps, rnd, r.Pick(24, 400))
+	c18Basics(r, cw, ps, rnd, r.Pick(100, 10000))
+	c18Directed(r, cw, ps, rnd, r.Pick(40, 4000))
+	c18SlowStore(r, cw, ps, rnd, r.Pick(24, 1500))
 	cw.Pts.SetJitter([]string{"disp.got", "purge.removed", "get.registered", "get.woken"}, 200)
-	c18Porcupine(r, cw, ps, rnd, r.Pick(60, 2500))
+	c18Porcupine(r, cw, ps, rnd, r.Pick(60, 10000))
 	r.Set("points_hit", cw.Pts.Counts())
 	checkRaceLog(r)
 }
